@@ -129,14 +129,14 @@ PROPS = {
              'the Python generator emits for it; the separator alphabet of Constant.dependencies covers the operator '
              'alphabet of calc; builtin known-set equals the scalar table; sort precedes cross_reference and follows patching.',
              'validity of the produced order for every DAG and start order',
-             'effect rule on list mutations, emitted-identifier vs dependency set comparison, table agreement'),
+             'effect rule on list mutations, emitted-identifier vs dependency set comparison, table agreement', claimed=True),
     'C16': P('multi-file schemas equal their concatenation',
              'FileProcessor caches by abspath with the cycle marker stored before processing and tested before use; '
              'push_dir/swap_dir restore in finally at the same index 0; include errors are routed to the error channel; '
              'every name class is propagated by p_include_def and walked by the model; the Python import covers every name '
              'an including module can mention; every generator translates Include; one FileProcessor per run.',
              'equivalence of outputs with the single-file build',
-             'ordering/pairing rules on the AST, handler routing, name-class coverage'),
+             'ordering/pairing rules on the AST, handler routing, name-class coverage', claimed=True),
     'C17': P('isar(+patch) and prophy front-ends agree',
              'Both front-ends construct StructMember with the same keyword vocabulary per array form and emit implicit '
              'sizers before their array with the same default type; make_enum two-complement constant equals 1<<(8*ENUM_SIZE); '
